@@ -152,6 +152,46 @@ def atoms(cond, pol=True):
     return [(S(c), pol)]
 
 
+def atom_alternatives(cond, pol=True, limit=8):
+    """Disjunctive form of `cond == pol`: a list of atom lists, one per way the condition can come out `pol` under short-circuit
+    evaluation (`a || b` true: a; or !a and b).  A branch condition is compound only after an explaining variable was substituted into
+    it (clang's CFG splits the short-circuit operators of a condition written in place).  Falls back to the single conjunction of
+    `atoms` when the expansion would exceed `limit` alternatives."""
+    def alt(c, pol):
+        c = strip(c)
+        if c is None:
+            return [[]]
+        if c["k"] == "un" and c["op"] == "!":
+            return alt(c["e"], not pol)
+        if c["k"] == "bin" and c["op"] in ("&&", "||"):
+            conj = (c["op"] == "&&") == pol           # both operands needed
+            if conj:
+                return [x + y for x in alt(c["l"], pol) for y in alt(c["r"], pol)]
+            # `a && b` false: a false; or a true and b false.   `a || b` true: a true; or a false and b true
+            return alt(c["l"], pol) + [x + y for x in alt(c["l"], not pol) for y in alt(c["r"], pol)]
+        if c["k"] == "bin" and c["op"] in ("==", "!="):
+            lv, rv = cval(c["l"]), cval(c["r"])
+            other = c["l"] if (rv == 0 and lv is None) else (c["r"] if (lv == 0 and rv is None) else None)
+            if other is not None and strip(other)["k"] in ("bin", "un") and strip(other).get("op") in ("&&", "||", "!"):
+                return alt(other, pol if c["op"] == "!=" else not pol)
+        return [atoms(c, pol)]
+    out = alt(cond, pol)
+    # drop alternatives that contradict themselves
+    ok = []
+    for a in out:
+        d = {}
+        good = True
+        for (x, p) in a:
+            if d.setdefault(x, p) != p:
+                good = False
+                break
+        if good:
+            ok.append(a)
+    if not ok or len(ok) > limit:
+        return [atoms(cond, pol)]
+    return ok
+
+
 # ----------------------------------------------------------------------------- program model
 
 class Ev:
@@ -792,28 +832,29 @@ class Func:
                         if not prune or all(assumed.get(a, p) == p for (a, p) in at2):
                             res.append(list(path) + [(b, at2)])
                     continue
-                at = []
+                alts = [[]]
                 if cond is not None and br in (True, False):
-                    at = atoms(cond, br)
+                    alts = atom_alternatives(cond, br)
                 elif cond is not None and br is not None:
                     if br[0] == "case":
-                        at = [("(%s == %s)" % (S(cond), br[1]), True)]
-                ok = True
-                if prune:
+                        alts = [[("(%s == %s)" % (S(cond), br[1]), True)]]
+                for at in alts:
+                    ok = True
+                    if prune:
+                        for (a, p) in at:
+                            if assumed.get(a, p) != p:
+                                ok = False
+                                break
+                    if not ok:
+                        continue
+                    added = [a for (a, p) in at if a not in assumed]
                     for (a, p) in at:
-                        if assumed.get(a, p) != p:
-                            ok = False
-                            break
-                if not ok:
-                    continue
-                added = [a for (a, p) in at if a not in assumed]
-                for (a, p) in at:
-                    assumed.setdefault(a, p)
-                path.append((b, at))
-                rec(s, path, assumed)
-                path.pop()
-                for a in added:
-                    del assumed[a]
+                        assumed.setdefault(a, p)
+                    path.append((b, at))
+                    rec(s, path, assumed)
+                    path.pop()
+                    for a in added:
+                        del assumed[a]
         rec(self.entry, [], {})
         return res
 
@@ -850,9 +891,12 @@ class Program:
             facts = extract(root, ndebug)
         self.units = sorted(facts)
         self.raw = facts
-        # canonicalisation: newly extracted static helpers (unknown to the frozen reference) are inlined into their callers
+        # canonicalisation: consistently renamed private symbols (functions, file variables, record fields, enumerators) get their
+        # reference names back; newly extracted static helpers (unknown to the frozen reference) are inlined into their callers
         import inline as _inline
+        import symren as _symren
         nm = _namemap()
+        self.symren = _symren.canonicalise(facts, nm, root)
         self.inlined = {}
         for u in self.units:
             if u in nm and not facts[u].get("_inlined_done"):
